@@ -278,7 +278,8 @@ class StateTriggerDecorator(TriggerDecorator, ExpressionDecorator, AutoKwargsDec
                 if ident_any_values_changed(func_args, self.state_trig_ident_any):
                     trig_ok = True
                 elif ident_values_changed(func_args, self.state_trig_ident):
-                    trig_ok = await self._is_trig_ok(new_vars)
+                    # without an expression only the any-change names above can trigger
+                    trig_ok = self.has_expression() and await self._is_trig_ok(new_vars)
                 else:
                     # a change that causes no evaluation (e.g. an attribute-only update) affects no hold timer
                     continue
